@@ -44,6 +44,10 @@ OPS = [
     ("engine-reuse/set-language german", "E0", b"\"q\" 'r' german text[^a]\n\n[^a]: n\n", D, 0, 2),
     ("engine-reuse/set-language hebrew", "E0", b"\"q\" 'r' hebrew text[^a] [#c]\n\n[^a]: n\n\n[#c]: C\n", D, 0, 6),
     ("engine-reuse/set-language english", "E0", b"\"q\" 'r' english text\n", D, 0, 0),
+    # a second reused engine, created with the no-metadata option; an editor re-parses part of the text between conversions
+    ("engine2-nometa/convert html", "F0", b"Key: value\nOther: x\n\n# H\n\npara one\n\npara two \"q\"\n", D | E["NO_METADATA"], 0),
+    ("engine2-nometa/partial re-parse + convert html", "F3", b"Key: value\nOther: x\n\n# H\n\npara one\n\npara two \"q\"\n", D | E["NO_METADATA"], 0),
+    ("engine2-nometa/partial re-parse + convert latex", "F3", b"Title: not metadata here\n\ntext[^a] more\n\n[^a]: n\n", D | E["NO_METADATA"], 2),
     ("engine-reuse/bom html", "E0", b"\xef\xbb\xbfTitle: B\n\n# H\n\ntext\n", D, 0),
     ("engine-reuse/latex-mode-metadata latex", "E0", b"Title: B\nlatex mode: beamer\nlatex header level: 2\n\n# S\n\n## F\n\ntext\n", D, 2),
 ]
@@ -53,7 +57,7 @@ def run_history(hist, want_all=False, perturb=0):
     if perturb:          # glibc fills every malloc'ed and freed block with a byte pattern: memory read before it is written shows up as different output
         ctypes.CDLL(None).mallopt(-6, perturb)
     L = mmd.lib(); L.vp_pool(0)
-    engine = None; res = []
+    engine = None; engine2 = None; res = []
     for oi in hist:
         name, kind, src, ext, fmt = OPS[oi][:5]; lang = OPS[oi][5] if len(OPS[oi]) > 5 else None
         if kind == "s":
@@ -62,6 +66,12 @@ def run_history(hist, want_all=False, perturb=0):
             buf = ctypes.create_string_buffer(src, len(src) + 4096); n = ctypes.c_size_t(0)
             out = mmd._take(L.vp_raw_to_data(buf, len(src) + 4096, ext, fmt, 0, ASSETS, ctypes.byref(n)), n.value)
             same = (buf.value == src) or bool(ext & (E["PARSE_OPML"] | E["PARSE_ITMZ"]))
+        elif kind.startswith("F"):
+            if engine2 is None: engine2 = L.vp_engine_new_d(src, ext)
+            else: L.vp_engine_set_text(engine2, src)
+            L.vp_engine_set_language(engine2, 0)
+            if kind == "F3": L.vp_engine_parse_range(engine2, len(src) // 2, len(src) - len(src) // 2)        # partial re-parse of the second half
+            out = mmd._take(L.vp_engine_convert(engine2, fmt)); same = L.vp_engine_source(engine2) == src
         else:
             if engine is None: engine = L.vp_engine_new_d(src, ext)
             else: L.vp_engine_set_text(engine, src)
@@ -73,7 +83,7 @@ def run_history(hist, want_all=False, perturb=0):
                 out = mmd._take(L.vp_engine_query(engine))
             same = L.vp_engine_source(engine) == src
         res.append((out, same))
-    key = STATE() ^ (0 if engine is None else (0x9E3779B97F4A7C15 ^ L.vp_engine_state(engine)))
+    key = STATE() ^ (0 if engine is None else (0x9E3779B97F4A7C15 ^ L.vp_engine_state(engine))) ^ (0 if engine2 is None else ((0xC2B2AE3D27D4EB4F ^ L.vp_engine_state(engine2)) * 3 & 0xFFFFFFFFFFFFFFFF))
     return res, key
 
 STATE = None
